@@ -16,8 +16,9 @@ import (
 // Pat is a compiled descriptor pattern. Syntax: literal text where `*` matches any (possibly
 // empty) sequence; a leading "re:" switches to a Go regexp. Always a full match.
 type Pat struct {
-	src string
-	re  *regexp.Regexp
+	src   string
+	re    *regexp.Regexp
+	parts []string // glob: literal parts between stars
 }
 
 var patCache = map[string]*Pat{}
@@ -29,20 +30,62 @@ func P(s string) *Pat {
 	var re *regexp.Regexp
 	if strings.HasPrefix(s, "re:") {
 		re = regexp.MustCompile("^(?:" + s[3:] + ")$")
-	} else {
-		parts := strings.Split(s, "*")
-		for i := range parts {
-			parts[i] = regexp.QuoteMeta(parts[i])
-		}
-		re = regexp.MustCompile("(?s)^" + strings.Join(parts, ".*") + "$")
 	}
 	p := &Pat{src: s, re: re}
+	if re == nil {
+		p.parts = strings.Split(s, "*")
+	}
 	patCache[s] = p
 	return p
 }
 
-func (p *Pat) Match(s string) bool { return p.re.MatchString(s) }
-func (p *Pat) String() string      { return p.src }
+// Match: for glob patterns every `*` matches a (possibly empty) substring that is balanced with
+// respect to (), [] — so "box.voterecords(*)" matches exactly the calls of box.voterecords and not
+// a longer expression that merely starts with one.
+func (p *Pat) Match(s string) bool {
+	if p.re != nil {
+		return p.re.MatchString(s)
+	}
+	return globMatch(p.parts, s)
+}
+
+func globMatch(parts []string, s string) bool {
+	if len(parts) == 1 {
+		return s == parts[0]
+	}
+	if !strings.HasPrefix(s, parts[0]) {
+		return false
+	}
+	s = s[len(parts[0]):]
+	rest := parts[1:]
+	// choose the extent of the star: every balanced prefix of s
+	depth := 0
+	for i := 0; i <= len(s); i++ {
+		if depth == 0 {
+			if len(rest) == 1 {
+				if s[i:] == rest[0] {
+					return true
+				}
+			} else if strings.HasPrefix(s[i:], rest[0]) && globMatch(rest, s[i:]) {
+				return true
+			}
+		}
+		if i == len(s) {
+			break
+		}
+		switch s[i] {
+		case '(', '[':
+			depth++
+		case ')', ']':
+			depth--
+			if depth < 0 {
+				return false
+			}
+		}
+	}
+	return false
+}
+func (p *Pat) String() string { return p.src }
 
 // ---------------------------------------------------------------------------------------------
 // instruction-level reachability with deletable edges and barrier instructions
